@@ -81,6 +81,7 @@ type World struct {
 
 	mu      sync.Mutex
 	calls   []Call
+	ncalls  map[string]int // invocations per (node, field) since the last ResetCalls
 	faults  map[string]hx.Fault
 	structs map[int]reflect.Value // node id -> *struct
 	byPtr   map[interface{}]int   // struct pointer -> node id (AX nodes)
@@ -123,10 +124,16 @@ var errInjected = errors.New("injected failure")
 
 func fkey(node int, field string) string { return fmt.Sprintf("%d/%s", node, field) }
 
-func (w *World) log(c Call) {
+func (w *World) log(c Call) int {
 	w.mu.Lock()
 	w.calls = append(w.calls, c)
+	if w.ncalls == nil {
+		w.ncalls = map[string]int{}
+	}
+	w.ncalls[fkey(c.Node, c.Field)]++
+	n := w.ncalls[fkey(c.Node, c.Field)]
 	w.mu.Unlock()
+	return n
 }
 
 // Calls returns a copy of the call log.
@@ -139,6 +146,7 @@ func (w *World) Calls() []Call {
 func (w *World) ResetCalls() {
 	w.mu.Lock()
 	w.calls = nil
+	w.ncalls = nil
 	w.mu.Unlock()
 }
 
@@ -164,8 +172,8 @@ func (w *World) resolveNode(strategy string, id int, field *ggql.Field, args map
 	if key == "" {
 		key = field.Name
 	}
-	w.log(Call{Strategy: strategy, Node: id, Field: field.Name, Key: key, Args: hx.CanonArgs(args), HasArgs: args})
-	if f, bad := w.faults[fkey(id, field.Name)]; bad && f.Kind != "nth" {
+	nth := w.log(Call{Strategy: strategy, Node: id, Field: field.Name, Key: key, Args: hx.CanonArgs(args), HasArgs: args})
+	if f, bad := w.faults[fkey(id, field.Name)]; bad && f.Kind != "nth" && (f.Call == 0 || f.Call == nth) {
 		return nil, faultErr(f)
 	}
 	if w.Hook != nil {
@@ -179,6 +187,12 @@ func (w *World) resolveNode(strategy string, id int, field *ggql.Field, args map
 		if fd := w.C.Schema.Type(n.Type).Field(field.Name); fd != nil {
 			if cv, isComputed := UniverseCompute(n, fd, args); isComputed {
 				v, ok = cv, true
+			}
+			switch UniverseFault(n, fd, args) {
+			case "err":
+				return nil, errRisky
+			case "valerr":
+				return v.Go(), errRisky
 			}
 		}
 	}
